@@ -4,7 +4,7 @@
     sequences of a net at the level of marking tuples) in proof/C20_Bfs.v. *)
 From Coq Require Import ZArith NArith List Lia Permutation.
 Import ListNotations.
-From SK Require Import model.C20_Model proof.C20_Spec proof.C20_Siphon proof.C20_Petri proof.C20_Bfs proof.C20_Build proof.C20_Main proof.C20_Hist proof.C20_Analyzer proof.C20_Undirected proof.C20_Order proof.C20_Complete model.C20_Persist proof.C20_PersistProof model.C20_Inputs proof.C20_InputsProof.
+From SK Require Import model.C20_Model proof.C20_Spec proof.C20_Siphon proof.C20_Petri proof.C20_Bfs proof.C20_Build proof.C20_Main proof.C20_Hist proof.C20_Analyzer proof.C20_Undirected proof.C20_Order proof.C20_Complete model.C20_Persist proof.C20_PersistProof model.C20_Inputs proof.C20_InputsProof model.C20_RawModel proof.C20_Raw.
 Local Open Scope nat_scope.
 
 (** The index predicate [_is_siphon_indices] is the Petri-net definition: for every network over the
@@ -310,3 +310,45 @@ Proof.
   split; [exact (flow_direct_spec nedges flow k Hk)|exact (flow_lengths nedges given flow)].
 Qed.
 Print Assumptions C20_flow_defaults.
+
+(** Attribute layer (model coq/model/C20_RawModel.v; every caller-supplied DiGraph of the net cases goes through it, attributes present
+    or absent as they are).  The graph the siphon / trap / persistence code works on — hence every predicate value, every reported set
+    and the persistence verdict ([run_net_raw]) — depends only on each node's identifier, its two classification tests
+    (kind == "species" or bipartite == 0 / kind == "reaction" or bipartite == 1) and its effective label (the label, else str(node)),
+    and on each arc's end points, role and effective coefficient (stoich, else 1). *)
+Theorem C20_attributes_normalised :
+  forall (G G' : rgraph) (k : nat) (cands sup : list (list nat)),
+  Forall2 (fun a b => rn_id a = rn_id b /\ species_like a = species_like b /\ reaction_like a = reaction_like b /\
+                      label_of a = label_of b) (rg_nodes G) (rg_nodes G') ->
+  Forall2 (fun a b => ra_src a = ra_src b /\ ra_dst a = ra_dst b /\ ra_role a = ra_role b /\ eff_stoich a = eff_stoich b)
+          (rg_arcs G) (rg_arcs G') ->
+  normalise G = normalise G' /\ run_net_raw G k cands sup = run_net_raw G' k cands sup.
+Proof.
+  intros G G' k cands sup Hn Ha. split; [exact (normalise_eqv G G' Hn Ha)|exact (run_net_raw_eqv G G' k cands sup Hn Ha)].
+Qed.
+Print Assumptions C20_attributes_normalised.
+
+(** The fully annotated export, with its species nodes inserted in ANY order, normalises to the export of model/C20_Model.v:
+    [bipartite_of] in label order, [with_species_order] otherwise — so [C20_siphon_pred] ... [C20_species_insertion_order] apply to
+    what the code computes from it, and by [C20_attributes_normalised] from every attribute-equivalent graph (classification by one
+    attribute only, labels left to the node ids, coefficients 1 left out). *)
+Theorem C20_raw_export_normalised :
+  forall (n : nat) (rs : list rxn) (order : list nat),
+  normalise (raw_export (seq 0 n) n rs) = bipartite_of n rs /\
+  (order <> [] -> normalise (raw_export order n rs) = with_species_order order (bipartite_of n rs)).
+Proof.
+  intros n rs order. split; [exact (normalise_raw_export_sorted n rs)|exact (normalise_raw_export_order order n rs)].
+Qed.
+Print Assumptions C20_raw_export_normalised.
+
+(** Undirected inputs at the attribute level (conversion.py:_as_bipartite on an nx.Graph; [orient_raw]: every stored edge is oriented by
+    its role, the reaction end found by kind == "reaction" or (kind absent and bipartite == 1)).  For every well-formed network, every
+    insertion order of its species nodes and WHICHEVER way the undirected graph stores each edge ([flips]), orienting gives back the
+    directed raw export — so [C20_raw_export_normalised] and everything that follows from it covers undirected inputs
+    ([run_net_raw_und] evaluates normalise after orient_raw on the graph as networkx stores it). *)
+Theorem C20_undirected_raw_input :
+  forall (order : list nat) (n : nat) (rs : list rxn) (flips : list bool),
+  wf_net n rs -> Forall (fun i => i < n) order ->
+  orient_raw (undirected_raw flips (raw_export order n rs)) = raw_export order n rs.
+Proof. intros order n rs flips Hwf Ho. exact (orient_undirected_raw order n rs Hwf Ho flips). Qed.
+Print Assumptions C20_undirected_raw_input.
